@@ -62,6 +62,43 @@ mod substream;
 
 pub mod config;
 
+/// Verification seam: the private connection negotiation entry points over a caller-provided `TcpStream`.
+#[cfg(litep2p_verif)]
+pub mod verif {
+    pub use super::connection::NegotiatedConnection;
+    use super::*;
+    use crate::{
+        crypto::ed25519::Keypair, error::NegotiationError,
+        transport::common::listener::AddressType, PeerId,
+    };
+
+    /// `TcpConnection::open_connection` (dialer side; `peer` is the dialed-peer expectation).
+    pub async fn open_connection(
+        stream: TcpStream,
+        keypair: Keypair,
+        address: SocketAddr,
+        peer: Option<PeerId>,
+        timeout: Duration,
+    ) -> Result<NegotiatedConnection, NegotiationError> {
+        let (id, address) = (ConnectionId::from(0usize), AddressType::Socket(address));
+        let yamux = crate::yamux::Config::default();
+        TcpConnection::open_connection(id, keypair, stream, address, peer, yamux, 5, 2, timeout, timeout)
+            .await
+    }
+
+    /// `TcpConnection::accept_connection` (listener side).
+    pub async fn accept_connection(
+        stream: TcpStream,
+        keypair: Keypair,
+        address: SocketAddr,
+        timeout: Duration,
+    ) -> Result<NegotiatedConnection, NegotiationError> {
+        let (id, yamux) = (ConnectionId::from(1usize), crate::yamux::Config::default());
+        TcpConnection::accept_connection(stream, id, keypair, address, yamux, 5, 2, timeout, timeout)
+            .await
+    }
+}
+
 /// Logging target for the file.
 const LOG_TARGET: &str = "litep2p::tcp";
 
